@@ -333,6 +333,8 @@ macro_rules! ansmsg_row {
                         1 => coder.num_bits() as f64,
                         2 => {
                             ctx.label("size_counted_on_live_view");
+                            // (the raw-binary view is asked for first: it is declined unless the coder happens to be sealed)
+                            let _ = coder.get_binary().map(|v| v.len());
                             let view = coder.get_compressed().unwrap_infallible();
                             (view.len() * wbits) as f64
                         }
